@@ -11,6 +11,15 @@ HERE = os.path.dirname(os.path.dirname(os.path.abspath(__file__)))
 
 # id -> (technique, level text, level note, design ref)
 CHECKS = {
+    "C01": (
+        "reference-model differential at kernel level with red-zone buffers, write guards, "
+        "interpreted-kernel third opinion and a dispatcher probe; CUDA kernels via Numba's simulator",
+        "Exploration: thousands of seeded kernel calls (all 6 Numba + 6 NumPy functions, 6 CUDA "
+        "wrappers in the simulator) compared with a direct windowed-DFT evaluation within a "
+        "calibrated rounding budget, sign of Im(XY) included; inputs fingerprinted; pads poisoned.",
+        "Trusts refmodel.ref_stats (float64 direct sums) and the budget of DESIGN section 3 (10x worst "
+        "measured error). CUDA: simulator only, no PTX/device fastmath.",
+        "DESIGN.md section 4, C01"),
     "C02": (
         "plan post-condition monitor (integer oracle on every plan observed, incl. probe on "
         "scheduler calls made inside the analyzer)",
@@ -18,7 +27,7 @@ CHECKS = {
         "x 4 schedulers, direct and through SpectrumAnalyzer.plan(); every plan observed is "
         "checked by an exact integer oracle. Held means: no unsafe/incomplete segmentation and "
         "no failure to build a plan on the configurations explored.",
-        "Trusts refmodel.plan_safety (40 lines, no speckit import) and the generator's reading of "
+        "Trusts refmodel.plan_safety (no speckit import) and the generator's reading of "
         "'admissible'. Says nothing about configurations not generated.",
         "DESIGN.md section 4, C02"),
     "C03": (
@@ -41,6 +50,129 @@ CHECKS = {
         "Trusts refmodel.plan_spacing and its reading of 'no clamp active'. Two literal violations "
         "of the 10 % clause are open known findings (KNOWN_FINDINGS.txt), matched by mechanism.",
         "DESIGN.md section 4, C04"),
+    "C05": (
+        "end-to-end reference-model differential on public result fields + band-restriction "
+        "metamorphic check + dispatcher probe",
+        "Exploration: hundreds/thousands of seeded analyses (records x schedulers x windows x orders "
+        "x backends incl. CUDA simulator); every sampled bin equals the reference estimator on the "
+        "result's own (f, L, D) within the rounding budget; window sums exact; single-bin requests; "
+        "band-restricted == in-band bins of unrestricted in every per-bin field.",
+        "Trusts refmodel.ref_stats, the harness's own Kaiser alpha(psll) transcription and np.kaiser.",
+        "DESIGN.md section 4, C05"),
+    "C06": (
+        "closed-form calibration oracle (sinusoid power, ENBW) + metamorphic scaling laws",
+        "Exploration: sinusoids of random amplitude/phase/fractional bin analysed at their own "
+        "frequency must give ps = A^2/2 within the window's side-lobe leakage; ENBW formula; "
+        "channel scaling c and sampling-rate relabelling a checked at 1e-11.",
+        "Tolerance for the power clause derived from the requested PSLL (image line and DC term); "
+        "fs-relabelling asserted only when the two plans have identical (L, D).",
+        "DESIGN.md section 4, C06"),
+    "C07": (
+        "physical-statement oracle (gain, delay) on all backends with decisive-bin selection",
+        "Exploration: y=g*x must give Hxy=g, coh=1 at every bin (1e-9); y=x delayed by d must give "
+        "Hxy*exp(+i*2*pi*f*d/fs) within the d/L edge-effect tolerance on decisive bins; numba, "
+        "numpy and cuda(simulator) backends.",
+        "Edge-effect tolerance tau=max(0.02, 2*2pi*ml*d/L) calibrated on the unchanged tree (worst "
+        "0.13 tau); a conjugated estimate is >= 3 tau on decisive bins by construction.",
+        "DESIGN.md section 4, C07"),
+    "C08": (
+        "metamorphic pairs (record, record + polynomial trend) through the public API",
+        "Exploration: adding a degree<=p polynomial (amplitude 1e2..1e8 x rms) to either/both "
+        "channels leaves XX, YY, XY, M2 unchanged within the rounding budget scaled by the trend; a "
+        "degree p+1 trend must change the low bins; order -1 equals the raw windowed reference.",
+        "Budget of DESIGN section 3 with A taken from the trend. cuda via simulator.",
+        "DESIGN.md section 4, C08"),
+    "C09": (
+        "algebraic identity monitor on every two-channel result + swap/solo re-analysis",
+        "Exploration: coherence in [0,1], Cauchy-Schwarz, coh=1 for K=1 and linearly dependent "
+        "channels, swap symmetry, pair-vs-solo auto-density, GyyCx+GyyRx=Gyy, GyySx=Gyy(1-coh) on "
+        "couplings with genuine phase.",
+        "Identities asserted at 1e-9..1e-12 relative; solo-vs-pair within the rounding budget.",
+        "DESIGN.md section 4, C09"),
+    "C10": (
+        "formula oracle on real and synthetic SpectrumResult states + Monte-Carlo spread monitor",
+        "Exploration + statistical: every *_dev/*_error equals its Bendat-Piersol expression of the "
+        "reported estimate, coherence and navg (1e-12) over a dense (g2, n, magnitude) sweep of "
+        "synthetic states and over computed results; Monte-Carlo ratio of observed spread to "
+        "reported deviation inside calibrated bands.",
+        "Monte-Carlo bands [0.85,1.15] / [0.78,1.25] cover 5 sigma of MC error plus asymptotic bias.",
+        "DESIGN.md section 4, C10"),
+    "C11": (
+        "reference-model differential for the segment scatter + identity monitor + Monte-Carlo",
+        "Exploration + statistical: XY_M2 equals the population variance of reference per-segment "
+        "products; emp_var=M2/navg, emp_dev=sqrt, Gxx/Gxy_emp_dev scaled by 2/(fs*S2) exactly; zero "
+        "for K=1; non-negative; mean emp/analytic ratio for white Gaussian noise in [0.93,1.07].",
+        "Budget of DESIGN section 3 for M2; identities at 1e-12.",
+        "DESIGN.md section 4, C11"),
+    "C12": (
+        "side-lobe envelope oracle on single-bin analyses of pure sinusoids; known finding by mechanism",
+        "Exploration: response at offsets beyond the main lobe must be below -(P-1) dB (two-line "
+        "bound near the image line), for P in [40,200], L>=64, fractional bins, within the float64 "
+        "floor of the recurrence.",
+        "Literal excess inside the two-line bound is the open known finding kaiser-two-line-"
+        "superposition; cases beyond the float64 floor are not generated.",
+        "DESIGN.md section 4, C12"),
+    "C13": (
+        "write guards (byte fingerprints, read-only arrays) + metamorphic layout/zero-fill equality + "
+        "finiteness scan",
+        "Exploration: caller arrays unchanged after every API call; NaN/Inf == zero-filled; all "
+        "layouts/dtypes give identical statistics; every density/coherence/TF finite for finite "
+        "input (error bars where coherence>0).",
+        "Exclusions stated in DESIGN (error bars at coh=0, cf_db where cf=0).",
+        "DESIGN.md section 4, C13"),
+    "C14": (
+        "schedule stress (threads x chunk sizes x threading layers x repetitions under CPU load) vs "
+        "single-thread and reference; random call/attribute histories vs fresh objects",
+        "Exploration: same analysis under many (layer, threads, chunksize) gives identical "
+        "statistics (1e-12; bitwise recorded); plan cache identity/content; attribute values "
+        "independent of access order; distinct thread distributions observed are reported.",
+        "A race needs the losing interleaving to occur; absence of a report is 'held on the "
+        "schedules observed'.",
+        "DESIGN.md section 4, C14"),
+    "C15": (
+        "least-squares identity monitor (bounds, invariance under permutation/re-mixing, analytic vs "
+        "numeric, SISO closed form)",
+        "Exploration: q in 1..4 systems with gains, delays and phases; residual within [0, asd_y] "
+        "on bins with K>q; ~0 for exact combinations; invariant under permutation and invertible "
+        "re-mixing; analytic == numeric; q=1 equals sqrt(Gyy(1-coh)).",
+        "Tolerances 1e-8 asd_y (invariance, cond<=100), 1e-9 (SISO).",
+        "DESIGN.md section 4, C15"),
+    "C16": (
+        "reference-model differential (rational-arithmetic Lagrange weights, direct stencil evaluation)",
+        "Exploration: taps for odd orders 1..111 equal textbook weights (1e-12) and sum to 1; "
+        "interior outputs equal the stencil sum; polynomials reproduced; integer/zero shifts exact; "
+        "constant and time-varying paths agree on interior samples; DataFrame wrapper semantics.",
+        "Reference weights computed with fractions.Fraction.",
+        "DESIGN.md section 4, C16"),
+    "C17": (
+        "history monitor: random partitions of a stream vs a twin instance consuming it in one "
+        "request; independent IIR cascade reference",
+        "Exploration: all generators x seeds x random block partitions (zeros included) and "
+        "get_sample runs across the 4096 refill; cascade equals per-section scipy.lfilter with "
+        "carried state.",
+        "Mixing get_sample and get_series on one instance is not asserted (documented prefetch).",
+        "DESIGN.md section 4, C17"),
+    "C18": (
+        "analytic evaluation of generator state (freqz on the instance's coefficients) + DFT of outputs",
+        "Exploration: |H|^2 scale^2 rms^2/fs f^alpha within 1.5 dB on the inner range and the "
+        "corner bound on the full range for thousands of (alpha, fs, fmin, fmax); white variance; "
+        "fftnoise magnitudes exact and real output; band-limited noise has no out-of-band power.",
+        "'about 1 dB between the corners' made precise as in DESIGN C18.",
+        "DESIGN.md section 4, C18"),
+    "C19": (
+        "linear-algebra / trapezoid / Parseval oracles",
+        "Exploration + statistical: detrended series orthogonal to Legendre basis, polynomials -> 0, "
+        "idempotent; df_detrend per column; integral_rms == sqrt(trapz) on in-band points, additive, "
+        "monotone; get_rms == integral_rms; full-band rms vs time-domain rms within 6 %.",
+        "Parseval tolerance covers uncovered band edges and estimator variance.",
+        "DESIGN.md section 4, C19"),
+    "C20": (
+        "relation-table monitor over all attributes + interpolation oracle + export/copy/pickle round-trip histories",
+        "Exploration: every documented relation (1e-12), None-ness by analysis type, unknown names "
+        "raise AttributeError, get_measurement (grid/linear/clamped/scalar), to_dataframe for every "
+        "result shape, copy/deepcopy/pickle in any order relative to attribute access.",
+        "Relation table transcribed from the class documentation.",
+        "DESIGN.md section 4, C20"),
 }
 
 PENDING_REASON = "check not built yet in this revision of /verif (build in progress; see DESIGN.md)"
